@@ -13,8 +13,11 @@ recursively; thorough tier: every pair (i, j) of invocation points on top of tha
 Of several failing points the first that is not a handled probe has to be reported (`effectiveFault`, Lean).
 Specification on the implementation's observation (`c20.spec`, the Lean function `Pkg.spec`): fault ->
 code 130, cwd after = cwd before, no invocation after the failing one, no finished artifact in the package output
-directory (build / publish phase: nothing new there); every tool ran in the caller's directory or below it;
-no fault -> success with the artifact present.
+directory (build / publish phase: nothing new there); every tool ran in the caller's directory or below it, or below the
+configured output base; no fault -> success with the artifact present.
+Location dimension: the package and publish pipelines of every target also run with `package.out` (and with it the build and
+package directories) nested, absolute inside the project, absolute outside of it and reached through `..`, started in the
+project directory and in a sub-directory of it — each with every invocation point failing both ways.
 """
 from __future__ import annotations
 
@@ -29,6 +32,7 @@ LEAN_MODULE = "PydjinniModel.Props.C20"
 THEOREMS = [
     "Pydjinni.Sys.Pkg.execute_restores_cwd",
     "Pydjinni.Sys.Pkg.execute_reports_external",
+    "Pydjinni.Sys.Pkg.execute_fault_any_dir",
     "Pydjinni.Sys.Pkg.executePinned_nonzero_moves_cwd",
     "Pydjinni.Sys.Pkg.executePinned_default_runs_elsewhere",
     "Pydjinni.Sys.Pkg.run_restores_cwd",
@@ -118,6 +122,35 @@ def publish_bases(ctx):
     for b in out:
         b["phase"] = "publish"
     return out
+
+
+# where the operation is started x where `package.out` lies (pkg.OUT_KINDS x pkg.CWD_KINDS); the default (dist, proj) and
+# (in_abs, proj) are what the bases above use
+LOCATIONS = [(o, c) for c in pkg.CWD_KINDS for o in pkg.OUT_KINDS if (o, c) not in (("dist", "proj"), ("in_abs", "proj"))]
+
+
+def location_bases(ctx):
+    """the location dimension: every target's package and publish pipelines — i.e. every kind of invocation point, those with a working
+    directory of their own (gradle wrapper, nuget pack / sources / push, git in the clone) and those without (conan, lipo, xcodebuild,
+    git clone) — under every (out, cwd) location. Every invocation point of each then fails in turn (`fault_cases`)."""
+    reps = [
+        {"key": "aar", "platforms": [["android", ["x86"]]], "phase": "package", "clean": True},
+        {"key": "nuget", "platforms": [["windows", ["x86_64"]]], "phase": "package", "pdb": True, "readme": True, "stale": True},
+        {"key": "swiftpackage", "platforms": [["macos", ["x86_64", "armv8"]]], "phase": "package", "dsym": True, "clean": True},
+        {"key": "aar", "platforms": [["android", ["x86"]]], "phase": "publish", "publish_mode": "local", "clean": True},
+        {"key": "nuget", "platforms": [["windows", ["x86_64"]]], "phase": "publish", "publish_mode": "remote", "pdb": True},
+        {"key": "swiftpackage", "platforms": [["ios", ["armv8"]]], "phase": "publish", "publish_mode": "git", "repo_exists": False, "clean": True},
+    ]
+    if not ctx.quick:
+        reps += [
+            {"key": "aar", "platforms": [["android", ["armv7", "armv8"]]], "phase": "publish", "publish_mode": "remote"},
+            {"key": "nuget", "platforms": [["windows", ["x86", "armv8"]]], "phase": "publish", "publish_mode": "local"},
+            {"key": "swiftpackage", "platforms": [["ios", ["armv8"]]], "phase": "publish", "publish_mode": "url", "repo_exists": True},
+            {"key": "swiftpackage", "platforms": [["macos", ["x86_64"]], ["ios_simulator", ["x86_64", "armv8"]]], "phase": "publish", "publish_mode": "local", "dsym": True},
+            {"key": "swiftpackage", "platforms": [["macos", ["armv8"]], ["ios", ["armv8"]]], "phase": "package", "stale": True},
+            {"key": "nuget", "platforms": [["windows", ["x86", "x86_64", "armv8"]]], "phase": "package", "clean": True},
+        ]
+    return [{**b, "out": o, "cwd": c} for (o, c) in LOCATIONS for b in reps]
 
 
 def fault_cases(base, calls, removed_gradlew=False):
@@ -252,17 +285,16 @@ def compare(case, obs, m):
 
 def spec_request(case, obs):
     f = case.get("fault")
+    o = {"code": obs.get("code"), "cwdBefore": obs.get("cwdBefore") or pkg.cwd_components(case), "cwdAfter": obs.get("cwdAfter"),
+         "outBefore": obs.get("outBefore", []), "outAfter": obs.get("outAfter", []),
+         "ranIn": [c["ranIn"] for c in obs.get("calls", [])],
+         # the configured output base holds the build / package directories the tools are started in; it need not lie below the caller
+         "workRoots": [pkg.out_base(case)]}
     if f and f.get("set"):
         return {"op": "c20.spec", "key": case["key"], "phase": case["phase"], "fault": None, "maxLogged": 0,
-                "faults": fault_points(case, obs),
-                "obs": {"code": obs.get("code"), "cwdBefore": obs.get("cwdBefore") or ["proj"], "cwdAfter": obs.get("cwdAfter"),
-                        "outBefore": obs.get("outBefore", []), "outAfter": obs.get("outAfter", []),
-                        "ranIn": [c["ranIn"] for c in obs.get("calls", [])]}}
+                "faults": fault_points(case, obs), "obs": o}
     return {"op": "c20.spec", "key": case["key"], "phase": f["phase"] if f else case["phase"],
-            "fault": {"k": f["k"], "handled": f["handled"]} if f else None, "maxLogged": f["max_logged"] if f else 0,
-            "obs": {"code": obs.get("code"), "cwdBefore": obs.get("cwdBefore") or ["proj"], "cwdAfter": obs.get("cwdAfter"),
-                    "outBefore": obs.get("outBefore", []), "outAfter": obs.get("outAfter", []),
-                    "ranIn": [c["ranIn"] for c in obs.get("calls", [])]}}
+            "fault": {"k": f["k"], "handled": f["handled"]} if f else None, "maxLogged": f["max_logged"] if f else 0, "obs": o}
 
 
 def evaluate(ctx, cases, templates, breaks):
@@ -277,7 +309,7 @@ def evaluate(ctx, cases, templates, breaks):
             raise common.Infra(f"packaging case failed in the harness: {o} case={describe(c)}")
         if o.get("prepare_failed"):
             # the succeeding package run that precedes `publish` already failed: judge that run instead
-            o = {"code": o.get("code"), "exc": o.get("exc"), "cwdBefore": ["proj"], "cwdAfter": o.get("cwdAfter"), "outBefore": [], "outAfter": [],
+            o = {"code": o.get("code"), "exc": o.get("exc"), "cwdBefore": pkg.cwd_components(c), "cwdAfter": o.get("cwdAfter"), "outBefore": [], "outAfter": [],
                  "calls": [], "files": [], "prepare_failed": True}
         usable.append(o)
     specs = ctx.driver.batch([spec_request(c if not o.get("prepare_failed") else {**c, "fault": None, "phase": "prepare"}, o) for c, o in zip(cases, usable)])
@@ -286,7 +318,9 @@ def evaluate(ctx, cases, templates, breaks):
         if "error" in m or "error" in s:
             raise common.Infra(f"driver error {m.get('error')} {s.get('error')}")
         f = c.get("fault")
+        ctx.stat(f"location_{pkg.out_kind(c)}_{c.get('cwd', 'proj')}" + ("_fault" if f else ""))
         key = json.dumps([c["key"], c["phase"], c.get("publish_mode"), [len(a) for _, a in c["platforms"]], bool(c.get("dsym")), bool(c.get("pdb")),
+                          pkg.out_kind(c), c.get("cwd", "proj"),
                           (f["tool"], f["sig"], f["kind"]) if f else None,
                           [p[1:] for p in f["points"]] if f and f.get("set") else None])
         ctx.count(key=key, nontrivial=f is not None, sample={"case": describe(c), "impl": {"code": o.get("code"), "cwdAfter": o.get("cwdAfter"), "calls": len(o.get("calls", []))}})
@@ -329,10 +363,12 @@ def strip(o):
 
 def run(ctx):
     ctx.coverage["rule"] = ("package targets (aar, nuget, swiftpackage) x platform/architecture sets x switches (clean, stale artifact, absolute out, "
-                            "configuration, dSYM/pdb/readme, publish mode, existing clone); per configuration a succeeding run, then every invocation "
+                            "configuration, dSYM/pdb/readme, publish mode, existing clone); the package and publish pipelines of every target x location "
+                            "(package.out relative / nested / absolute in the project / absolute elsewhere / through `..`, started in the project directory "
+                            "or in a sub-directory of it); per configuration a succeeding run, then every invocation "
                             "point failing as non-zero exit and as missing command; then sets of faults: every run that went on after its last fault (handled "
                             "probe) extended by every later invocation point (non-zero / tools gone), recursively up to three faults; thorough: all pairs; "
-                            "distinct = (target, phase, publish mode, architectures per platform, dSYM, pdb, failing tool + arguments, fault kind, "
+                            "distinct = (target, phase, publish mode, architectures per platform, dSYM, pdb, out kind, cwd kind, failing tool + arguments, fault kind, "
                             "tools + arguments of the fault set); non-trivial = a fault is injected")
     ctx.assumptions += [
         "a tool that fails leaves no output file (stubs write only on success); copytree/copy are atomic",
@@ -342,7 +378,7 @@ def run(ctx):
     r = random.Random(f"{ctx.seed}/c20")
     templates = {k: pkg.template_files(common.SRC, k) for k in pkg.ALL_PLATFORMS}
     breaks = []
-    bases = package_bases(ctx, r) + publish_bases(ctx)
+    bases = package_bases(ctx, r) + publish_bases(ctx) + location_bases(ctx)
     ok_runs = evaluate(ctx, [dict(b) for b in bases], templates, breaks)
     faults = []
     for c, o, m in ok_runs:
